@@ -243,8 +243,19 @@ class Ctx:
             return
         if cond is False:
             raise PathEnd()
-        self.pc.append(cond)
-        self.fs.add(cond)
+        self._add_pc(cond)
+
+    def _add_pc(self, cond):
+        """Add a hypothesis; top-level `IsInt(e)` conjuncts are skolemised (e == ToReal(k), k fresh):
+        measured, z3 answers `unknown` on IsInt((n-1)/32) |- IsInt((n-33)/32) but proves the
+        skolemised form instantly."""
+        for c in _flatten([cond]):
+            e = _isint_arg(c)
+            if e is not None:
+                k = self.fresh("k_int", "Int")
+                c = e == z3.ToReal(k)
+            self.pc.append(c)
+            self.fs.add(c)
 
     # ------------------------------------------------------------------ branching
     def _feasible(self, cond):
@@ -296,8 +307,167 @@ class Ctx:
         level = call.func.attr
         self.log.append((level, call.lineno))
 
+    # ------------------------------------------------------------------ loops cut at invariants
     def loop_contract(self, fr, st):
-        return None
+        if fr.func is None or not self.contract.loops:
+            return None
+        key = fr.func.key
+        loops = [n for n in ast.walk(fr.func.node) if isinstance(n, (ast.For, ast.While))]
+        loops.sort(key=lambda n: (n.lineno, n.col_offset))
+        try:
+            ordinal = next(i for i, n in enumerate(loops) if n is st)
+        except StopIteration:
+            return None
+        lc = self.contract.loops.get(f"{key}#{ordinal}")
+        if lc is None:
+            # a contract keyed to this function but to another ordinal whose shape matches this loop:
+            # loops were reordered / split -> re-anchor, never apply blindly
+            return None
+        shape = ast.unparse(st.test if isinstance(st, ast.While) else st.iter)
+        if shape != lc.shape:
+            raise Unsupported(
+                f"RE-ANCHOR {key}: loop #{ordinal} has shape {shape!r}, contract expects {lc.shape!r}")
+        lc._name = f"{self.contract.name}/{fr.func.qualname}.loop{ordinal}"
+        return lc
+
+    def _loop_env(self, fr):
+        return fr.locals
+
+    def _check_invs(self, lc, fr, kind):
+        for i, text in enumerate(lc.invariants):
+            sub = Frame(fr.module, fr.func, True, fr.locals, fr.depth)
+            tree = ast.parse(text.strip(), mode="eval")
+            g = self.I.truth(self.I.eval(tree.body, sub))
+            self.check(g, f"{lc._name}/{kind}#{i}", kind, text)
+
+    def _assume_invs(self, lc, fr):
+        for text in lc.invariants:
+            sub = Frame(fr.module, fr.func, True, fr.locals, fr.depth)
+            tree = ast.parse(text.strip(), mode="eval")
+            self.assume(self.I.truth(self.I.eval(tree.body, sub)))
+
+    def _havoc_loop(self, lc, st, fr):
+        mods = lc.modifies
+        if mods is None:
+            mods = {}
+            for n in ast.walk(st):
+                tg = []
+                if isinstance(n, ast.Assign):
+                    tg = n.targets
+                elif isinstance(n, (ast.AugAssign, ast.AnnAssign)):
+                    tg = [n.target]
+                elif isinstance(n, ast.For):
+                    tg = [n.target]
+                for t in tg:
+                    for x in ast.walk(t):
+                        if isinstance(x, ast.Name) and isinstance(x.ctx, ast.Store):
+                            mods.setdefault(x.id, None)
+                        elif isinstance(x, (ast.Attribute, ast.Subscript)) and isinstance(x.ctx, ast.Store):
+                            raise Unsupported(
+                                f"loop at line {st.lineno} stores to {ast.unparse(x)}: "
+                                "give the loop contract an explicit modifies")
+        for name, desc in mods.items():
+            label = self.fresh_label(f"{name}'")
+            if "." in name:
+                base, field = name.rsplit(".", 1)
+                obj = self.I.eval(ast.parse(base, mode="eval").body, Frame(fr.module, fr.func, True, fr.locals))
+                cur = obj.fields.get(field) if isinstance(obj, PObj) else None
+            else:
+                obj, field = None, name
+                cur = fr.locals.get(name)
+            if desc is None:
+                if name not in fr.locals and obj is None:
+                    continue  # first assigned inside the loop
+                desc = self._desc_like(cur, name)
+            new, _ = self.make(desc, label)
+            if isinstance(cur, PList) and isinstance(new, PList) and len(cur.items) == len(new.items):
+                cur.items[:] = new.items  # in place: aliases of the list see the havoc
+                new = cur
+            if obj is not None:
+                obj.fields[field] = new
+            else:
+                fr.locals[name] = new
+
+    def _desc_like(self, v, name):
+        if isinstance(v, bool) or isinstance(v, z3.BoolRef):
+            return api.Bool
+        if sym.is_intlike(v):
+            return api.Int
+        if sym.is_reallike(v):
+            return api.Real
+        if isinstance(v, PList):
+            return api.Items(*[self._desc_like(x, name) for x in v.items])
+        if v is None:
+            raise Unsupported(f"cannot havoc {name} (None) without a descriptor")
+        for p in self.plugins:
+            r = p.desc_like(self, v, name)
+            if r is not NotImplemented:
+                return r
+        raise Unsupported(f"cannot havoc {name} of type {type(v).__name__} without a descriptor")
+
+    def cut_while(self, I, st, fr, lc):
+        self._check_invs(lc, fr, "inv-init")
+        self._havoc_loop(lc, st, fr)
+        self._assume_invs(lc, fr)
+        var0 = None
+        if lc.variant:
+            sub = Frame(fr.module, fr.func, True, fr.locals, fr.depth)
+            var0 = I.eval(ast.parse(lc.variant, mode="eval").body, sub)
+        c = I.truth(I.eval(st.test, fr), st)
+        if self.branch(c, st):
+            try:
+                I.exec_block(st.body, fr)
+            except _Break:
+                return
+            except _Continue:
+                pass
+            self._check_invs(lc, fr, "inv-step")
+            if lc.variant:
+                sub = Frame(fr.module, fr.func, True, fr.locals, fr.depth)
+                var1 = I.eval(ast.parse(lc.variant, mode="eval").body, sub)
+                g = b_and(sym.num_cmp("<", var1, var0), sym.num_cmp(">=", var0, 0))
+                self.check(g, f"{lc._name}/variant", "variant", f"{lc.variant} decreases and is bounded below")
+            raise PathEnd()
+        I.exec_block(st.orelse, fr)
+
+    def cut_for(self, I, st, fr, lc):
+        it = I.eval(st.iter, fr)
+        idx = lc.index or "_i"
+        n = None
+        for p in self.plugins:
+            n = p.seq_len(I, it)
+            if n is not NotImplemented:
+                break
+        else:
+            n = NotImplemented
+        if n is NotImplemented:
+            if isinstance(it, PList):
+                n = len(it.items)
+            else:
+                raise Unsupported(f"loop contract on iteration over {type(it).__name__}")
+        fr.locals[idx] = 0
+        fr.locals["_n"] = n
+        self._check_invs(lc, fr, "inv-init")
+        self._havoc_loop(lc, st, fr)
+        i = self.fresh(idx, "Int")
+        fr.locals[idx] = i
+        self.assume(i >= 0)
+        self.assume(sym.num_cmp("<=", i, n))
+        self._assume_invs(lc, fr)
+        if self.branch(sym.num_cmp("<", i, n), st):
+            x = I.getitem(it, i, st)
+            I.assign(st.target, x, fr)
+            try:
+                I.exec_block(st.body, fr)
+            except _Break:
+                return
+            except _Continue:
+                pass
+            fr.locals[idx] = i + 1
+            self._check_invs(lc, fr, "inv-step")
+            raise PathEnd()
+        fr.locals[idx] = n if not is_sym(n) else i
+        I.exec_block(st.orelse, fr)
 
     def iterate_hook(self, I, it, node):
         for p in self.plugins:
@@ -699,6 +869,8 @@ class Ctx:
                 raise Unsupported("old() outside a postcondition")
             sub = Frame(fr.module, fr.func, True, dict(fr.locals["__old__"]), fr.depth)
             sub.locals["__old__"] = fr.locals["__old__"]
+            for n in fr.locals.get("__bound__", ()):
+                sub.locals[n] = fr.locals[n]
             return I.eval(e.args[0], sub)
         if nm == "implies":
             a = I.truth(I.eval(e.args[0], fr))
@@ -721,6 +893,7 @@ class Ctx:
             for x in I.iterate(it, e):
                 sub = Frame(fr.module, fr.func, fr.spec, dict(fr.locals), fr.depth)
                 params = [a.arg for a in lam.args.args]
+                sub.locals["__bound__"] = tuple(fr.locals.get("__bound__", ())) + tuple(params)
                 if len(params) == 1:
                     sub.locals[params[0]] = x
                 else:
@@ -733,6 +906,13 @@ class Ctx:
             b = I.eval(e.args[1], fr)
             tol = I.eval(e.args[2], fr) if len(e.args) > 2 else Fraction("1e-6")
             return sym.num_cmp("<=", sym.num_abs(sym.num_sub(a, b)), tol)
+        if nm == "isint":
+            v = I.eval(e.args[0], fr)
+            if sym.is_intlike(v):
+                return True
+            if not is_sym(v):
+                return Fraction(v).denominator == 1
+            return simp(z3.IsInt(sym.zreal(v)))
         if nm == "log_count":
             lvl = I.eval(e.args[0], fr)
             return sum(1 for l, _ in self.log if l == lvl)
@@ -756,7 +936,10 @@ class Ctx:
         fr = Frame(self.sidecar, None, True, dict(env))
         if old is not None:
             fr.locals["__old__"] = old
-        v = self.I.eval(tree.body, fr)
+        try:
+            v = self.I.eval(tree.body, fr)
+        except PyRaise as ex:
+            raise SourceError(f"contract clause {text!r} raised {ex} (guard it with implies)") from ex
         return self.I.truth(v)
 
     # ------------------------------------------------------------------ obligations
@@ -776,12 +959,19 @@ class Ctx:
         sa = _slice(self.pc, g, hubs=True)
         full = _slice(self.pc, g)
         ng = z3.Not(g)
+        lin = [c for c in full if not _nonlinear(c)]
+        if len(lin) < len(full) and not _nonlinear(g):
+            # stage 0: drop nonlinear hypotheses altogether (sound for a proof)
+            st, _, solver, _ = solve(lin + [ng], min(self.query_timeout, 5000), want_model=False)
+            if st == "unsat":
+                ob.merge("discharged", time.time() - t0, solver)
+                self._add_pc(g)
+                return
         if len(sa) < len(full):
             st, _, solver, _ = solve(sa + [ng], min(self.query_timeout, 5000), want_model=False)
             if st == "unsat":
                 ob.merge("discharged", time.time() - t0, solver)
-                self.pc.append(g)
-                self.fs.add(g)
+                self._add_pc(g)
                 return
         st, model, solver, txt = solve(full + [ng], self.query_timeout)
         if len(self.result.smt_samples) < 2 and goal is not False:
@@ -809,8 +999,7 @@ class Ctx:
             ob.merge("unknown", dt, solver, detail={"reason": "timeout/unknown", "line": line})
         # continue the path as if the clause held
         if goal is not False and goal is not True:
-            self.pc.append(g)
-            self.fs.add(g)
+            self._add_pc(g)
         elif goal is False:
             raise PathEnd()
 
@@ -905,8 +1094,26 @@ class Ctx:
         if c.returns is not None:
             res, _ = self.make(c.returns, self.fresh_label(f"{c.name}.ret"))
         env = dict(loc)
+        skip = set()
+        for text in c.ensures:
+            al = _alias_clause(text)
+            if al is None:
+                continue
+            lhs, rhs = al
+            # `param.field is result` / `result is param.field`: realised by construction
+            other = rhs if lhs == "result" else lhs
+            root, _, field = other.partition(".")
+            obj = loc.get(root)
+            if isinstance(obj, PObj) and field and "." not in field:
+                if other in (c.modifies or []):
+                    obj.fields[field] = res
+                else:
+                    res = obj.fields.get(field)
+                skip.add(text)
         env["result"] = res
         for text in c.ensures + c.assume_post:
+            if text in skip:
+                continue
             g = self.eval_clause(text, env, old)
             self.assume(g)
         self.result.functions.setdefault(
@@ -1135,6 +1342,50 @@ def _vars_of(t, cache):
     return out
 
 
+def _nonlinear(t, cache={}):
+    k = t.get_id()
+    stack = [t]
+    seen = set()
+    while stack:
+        x = stack.pop()
+        i = x.get_id()
+        if i in seen:
+            continue
+        seen.add(i)
+        if z3.is_app(x):
+            kd = x.decl().kind()
+            if kd == z3.Z3_OP_MUL:
+                nonconst = [c for c in x.children() if not (z3.is_int_value(c) or z3.is_rational_value(c))]
+                if len(nonconst) >= 2:
+                    return True
+            elif kd in (z3.Z3_OP_DIV, z3.Z3_OP_IDIV, z3.Z3_OP_MOD, z3.Z3_OP_REM):
+                d = x.children()[1]
+                if not (z3.is_int_value(d) or z3.is_rational_value(d)):
+                    return True
+            elif kd == z3.Z3_OP_POWER:
+                return True
+            stack.extend(x.children())
+    return False
+
+
+def _isint_arg(c):
+    """e if c is IsInt(e) or its simplified form ToReal(ToInt(e)) == e, else None."""
+    if not z3.is_app(c):
+        return None
+    k = c.decl().kind()
+    if k == z3.Z3_OP_IS_INT:
+        return c.children()[0]
+    if k == z3.Z3_OP_EQ:
+        a, b = c.children()
+        for x, y in ((a, b), (b, a)):
+            if z3.is_app(x) and x.decl().kind() == z3.Z3_OP_TO_REAL:
+                inner = x.children()[0]
+                if z3.is_app(inner) and inner.decl().kind() == z3.Z3_OP_TO_INT:
+                    if inner.children()[0].eq(y):
+                        return y
+    return None
+
+
 def _flatten(pc):
     out = []
     stack = list(reversed(pc))
@@ -1186,6 +1437,18 @@ def _slice(pc, goal, hubs=False):
             if vs <= hub:
                 picked.append(c)
     return picked
+
+
+def _alias_clause(text):
+    try:
+        t = ast.parse(text.strip(), mode="eval").body
+    except SyntaxError:
+        return None
+    if isinstance(t, ast.Compare) and len(t.ops) == 1 and isinstance(t.ops[0], ast.Is):
+        l, r = ast.unparse(t.left), ast.unparse(t.comparators[0])
+        if l == "result" or r == "result":
+            return l, r
+    return None
 
 
 def exc_name_matches(name, handler):
@@ -1300,3 +1563,9 @@ class Plugin:
 
     def after_inputs(self, ctx, env):
         pass
+
+    def desc_like(self, ctx, v, name):
+        return NotImplemented
+
+    def seq_len(self, I, it):
+        return NotImplemented
